@@ -67,6 +67,23 @@ fn b(e: E) -> Box<E> {
     Box::new(e)
 }
 
+/// a name for a new parameter / do-block local: usually fresh, sometimes an outer numeric name
+/// (the new binding then shadows the outer or captured one inside its scope)
+fn local_name(t: &mut Tape, sc: &mut Scope, stem: &str) -> String {
+    if !sc.nums.is_empty() && t.chance(1, 4) {
+        sc.nums[t.pick(sc.nums.len())].clone()
+    } else {
+        let n = sc.fresh_name(stem);
+        n
+    }
+}
+
+fn add_num(sc: &mut Scope, name: &str) {
+    if !sc.nums.iter().any(|n| n == name) {
+        sc.nums.push(name.to_string());
+    }
+}
+
 fn var(t: &mut Tape, names: &[String], fallback: E) -> E {
     if names.is_empty() { fallback } else { E::Id(names[t.pick(names.len())].clone()) }
 }
@@ -101,9 +118,9 @@ pub fn gen_e(t: &mut Tape, sc: &Scope, ty: Ty, depth: usize) -> E {
             13 => {
                 // do { t = N; return N(t) }
                 let mut sc2 = sc.clone();
-                let name = sc2.fresh_name("t");
+                let name = local_name(t, &mut sc2, "t");
                 let init = gen_e(t, sc, Ty::N, d);
-                sc2.nums.push(name.clone());
+                add_num(&mut sc2, &name);
                 E::Do(vec![E::Assign(name, b(init))], b(gen_e(t, &sc2, Ty::N, d)))
             }
             14 => {
@@ -250,8 +267,8 @@ pub fn gen_e(t: &mut Tape, sc: &Scope, ty: Ty, depth: usize) -> E {
             0 => leaf(t, sc, ty),
             1 | 2 | 3 => {
                 let mut sc2 = sc.clone();
-                let p = sc2.fresh_name("x");
-                sc2.nums.push(p.clone());
+                let p = local_name(t, &mut sc2, "x");
+                add_num(&mut sc2, &p);
                 E::Lambda(vec![P::Req(p)], b(gen_e(t, &sc2, Ty::N, d)))
             }
             4 => {
@@ -273,11 +290,22 @@ pub fn gen_e(t: &mut Tape, sc: &Scope, ty: Ty, depth: usize) -> E {
             _ => {
                 // lambda with a do-block body
                 let mut sc2 = sc.clone();
-                let (p, loc) = (sc2.fresh_name("x"), sc2.fresh_name("t"));
+                let p = sc2.fresh_name("x");
                 sc2.nums.push(p.clone());
+                let loc = local_name(t, &mut sc2, "t");
                 let init = gen_e(t, &sc2, Ty::N, d);
-                sc2.nums.push(loc.clone());
-                E::Lambda(vec![P::Req(p)], b(E::Do(vec![E::Assign(loc, b(init))], b(gen_e(t, &sc2, Ty::N, d)))))
+                add_num(&mut sc2, &loc);
+                // sometimes a second statement that reads the (possibly shadowing) local
+                let mut stmts = vec![E::Assign(loc.clone(), b(init))];
+                if t.chance(1, 3) {
+                    let loc2 = local_name(t, &mut sc2, "t");
+                    let init2 = gen_e(t, &sc2, Ty::N, d);
+                    add_num(&mut sc2, &loc2);
+                    if loc2 != loc {
+                        stmts.push(E::Assign(loc2, b(init2)));
+                    }
+                }
+                E::Lambda(vec![P::Req(p)], b(E::Do(stmts, b(gen_e(t, &sc2, Ty::N, d)))))
             }
         },
     }
